@@ -6,12 +6,13 @@ import GffModel.Proto
 import GffModel.ProtoC17
 import GffModel.ProtoMerge
 import GffModel.ProtoIter
+import GffModel.ProtoSql
 
 namespace GffModel
 namespace ProtoAll
 
 def handlers : List (List String → Option String) :=
-  [Proto.stepPure, ProtoC17.handler, ProtoMerge.handler, ProtoIter.handler]
+  [Proto.stepPure, ProtoC17.handler, ProtoMerge.handler, ProtoIter.handler, ProtoSql.handler]
 
 def step (ws : List String) : Option String :=
   handlers.findSome? (fun h => h ws)
